@@ -363,7 +363,7 @@ func (db *specDB) loadSpecFile(path string, pkgName string, isGo bool) error {
 			cur.loops = append(cur.loops, curLoop)
 		case "endloop":
 			curLoop = nil
-		case "assert", "assume", "cut":
+		case "assert", "assume", "cut", "havoc":
 			// assert [tags] expr at "stmt text" #k
 			j := strings.LastIndex(rest, " at ")
 			if j < 0 {
